@@ -15,3 +15,4 @@ def run(ck):
     region.r5_4_success_writes_result(ck, P)   # C05-R4: a clip setter that reports success has replaced the clip
     region.r5_5_copy_sets_count(ck, P)
     image.r_hook_refreshes_unconditionally(ck, P, 'C14-R8')
+    image.r_validate_clears_dirty(ck, P, 'C14-R9')
